@@ -1,6 +1,6 @@
 // ---- common prelude: stand-ins for std / third-party containers and leaf types (TRUSTED) ----
 //@@ trusted HashMap<K,V> stand-in: std::collections::HashMap modelled as Map<K,V> (new/insert/remove/get/get_mut/contains_key/len); K's Eq+Hash assumed to agree with structural equality
-//@@ trusted Slab<T> stand-in: slab::Slab modelled as Map<usize,T>; vacant_entry().key() is not in the domain; insert adds exactly that key
+//@@ trusted Slab<T> stand-in: slab::Slab modelled as Map<usize,T>; vacant_entry().key() is not in the domain; insert adds exactly that key; indexing `slab[k]` requires k occupied (it panics otherwise)
 //@@ trusted derived Clone impls return a value equal to self
 
 #[verifier::external_body]
@@ -63,6 +63,17 @@ pub struct Slab<T> { m: Vec<T> }
 impl<T> View for Slab<T> {
     type V = Map<usize, T>;
     uninterp spec fn view(&self) -> Map<usize, T>;
+}
+/// `slab[key]` panics on a vacant key: the key must be occupied
+impl<T> vstd::std_specs::core::IndexSpecImpl<usize> for Slab<T> {
+    open spec fn index_req(&self, i: &usize) -> bool { self@.contains_key(*i) }
+}
+impl<T> core::ops::Index<usize> for Slab<T> {
+    type Output = T;
+    #[verifier::external_body]
+    fn index(&self, i: usize) -> (r: &T)
+        ensures *r == self@[i],
+    { unimplemented!() }
 }
 
 #[verifier::reject_recursive_types(T)]
